@@ -446,7 +446,8 @@ def _r2(ctx):
         ctx.check(ok, "R2", "RenderCommand.handle:Network(rate_modifier=)", (RENDER, later[0].lineno if later else conv.lineno),
                   "the converted dictionary is what Network(...) receives")
     # writer: string keys
-    cfn = pkg.classes["BaseConfiguration"].methods.get("content")
+    from .c20 import _content_writer
+    cfn = _content_writer(pkg)
     ctx.saw(CONF, "BaseConfiguration.content")
     w = None
     for node in ast.walk(cfn):
